@@ -460,6 +460,9 @@ func checkHandshakeGates(r *Report, rule string, hh *ssa.Function) {
 	}
 	for _, g := range gates {
 		gc := Calls(hh, false, g.callee)
+		if len(gc) == 0 && checkGateViaHelper(r, rule, hh, g.callee, g.comp, g.rejectWhen, g.onlyFor, credCalls) {
+			continue
+		}
 		if len(gc) != 1 {
 			r.Fail(rule, hh.Pos(), fmt.Sprintf("expected one %s call in HandleHandshake, found %d", g.callee, len(gc)), "HandleHandshake", "gate:"+g.callee)
 			continue
@@ -603,4 +606,253 @@ func checkExtractIPBranches(r *Report, rule string, ex *ssa.Function) {
 	if n < 2 {
 		r.Fail(rule, ex.Pos(), fmt.Sprintf("only %d typed branches found in extractIP (TCP and UDP confirmed by hand)", n), "extractIP", "typed-branch-returns-ip:floor")
 	}
+}
+
+// definiteKind classifies a returned value when the code itself says what it is.
+func definiteKind(v ssa.Value) string {
+	if isNil(v) {
+		return "nil"
+	}
+	if b, ok := ConstBool(v); ok {
+		if b {
+			return "true"
+		}
+		return "false"
+	}
+	switch stripValue(v).(type) {
+	case *ssa.Alloc, *ssa.MakeInterface, *ssa.MakeMap, *ssa.MakeSlice, *ssa.MakeClosure:
+		return "nonnil"
+	}
+	return "unknown"
+}
+
+// gateDecision: the If that branches on result #0 of a gate call and the successor taken when the
+// gate refuses.
+func gateDecision(call ssa.CallInstruction, rejectWhen bool) (*ssa.If, int) {
+	res := ssa.Value(call.(*ssa.Call))
+	if tup, ok := call.(*ssa.Call).Type().(*types.Tuple); ok && tup.Len() > 1 {
+		res = extractOf(call, 0)
+	}
+	var iff *ssa.If
+	if res != nil && res.Referrers() != nil {
+		for _, ref := range *res.Referrers() {
+			if i, ok := ref.(*ssa.If); ok {
+				iff = i
+			}
+			if u, ok := ref.(*ssa.UnOp); ok && u.Referrers() != nil {
+				for _, r2 := range *u.Referrers() {
+					if i, ok := r2.(*ssa.If); ok {
+						iff = i
+					}
+				}
+			}
+		}
+	}
+	if iff == nil {
+		return nil, 0
+	}
+	_, pol := normCond(iff.Cond, true)
+	if rejectWhen == pol {
+		return iff, 0
+	}
+	return iff, 1
+}
+
+// checkGateViaHelper handles a gate that was moved out of HandleHandshake into a same-package
+// helper (`if denied, err := h.checkAddressGates(ip); denied != nil { return denied, err }`).
+// The same three obligations are decided across the two functions:
+//   - in the helper, every return reachable from the gate's refusing outcome has one definite
+//     class of some result (nil / non-nil / true / false) and no passing return has that class;
+//   - in HandleHandshake the branch on that result leads, for that class, to no credential function;
+//   - the helper is called on every path to the credential functions, the gate is evaluated on every
+//     path to a passing return of the helper (component-absent paths excepted), and the address
+//     given to the gate is the helper's parameter bound to extractIP(conn...).
+//
+// Returns false when no such helper exists (the caller then reports the missing gate).
+func checkGateViaHelper(r *Report, rule string, hh *ssa.Function, callee, comp string, rejectWhen bool, onlyFor []string, credCalls []ssa.CallInstruction) bool {
+	var hc *ssa.Call
+	var h *ssa.Function
+	var gate ssa.CallInstruction
+	Instrs(hh, func(in ssa.Instruction) {
+		c, ok := in.(*ssa.Call)
+		if !ok {
+			return
+		}
+		f := c.Common().StaticCallee()
+		if f == nil || f.Pkg != hh.Pkg || len(f.Blocks) == 0 {
+			return
+		}
+		if gs := Calls(f, false, callee); len(gs) == 1 && hc == nil {
+			hc, h, gate = c, f, gs[0]
+		}
+	})
+	if hc == nil {
+		return false
+	}
+	name := h.Name()
+	wanted := func(cc ssa.CallInstruction) bool {
+		if len(onlyFor) == 0 {
+			return true
+		}
+		for _, o := range onlyFor {
+			if o == CalleeOf(cc).Name {
+				return true
+			}
+		}
+		return false
+	}
+	iff, rejSucc := gateDecision(gate, rejectWhen)
+	if iff == nil {
+		r.Fail(rule, CallPos(gate), "result of "+callee+" does not decide a branch in "+name, "HandleHandshake", "gate:"+callee)
+		return true
+	}
+	nres := h.Signature.Results().Len()
+	var rejRets []*ssa.Return
+	WalkFrom(iff.Block().Succs[rejSucc], nil, func(in ssa.Instruction) int {
+		if rt, ok := in.(*ssa.Return); ok {
+			rejRets = append(rejRets, rt)
+		}
+		return Cont
+	}, nil)
+	allRets := Returns(h)
+	idx, class := -1, ""
+	for i := 0; i < nres && idx < 0; i++ {
+		k := ""
+		same := len(rejRets) > 0
+		for _, rt := range rejRets {
+			c := definiteKind(RetVal(rt, i))
+			if c == "unknown" || (k != "" && c != k) {
+				same = false
+			}
+			k = c
+		}
+		if !same {
+			continue
+		}
+		idx, class = i, k
+	}
+	if idx < 0 {
+		r.Fail(rule, CallPos(gate), "the refusing outcome of "+callee+" in "+name+" does not end in returns with one definite result class", "HandleHandshake", "gate-rejects:"+callee)
+		return true
+	}
+	// the passing returns of the helper (class differs) are the ones HandleHandshake continues on
+	var passRets []*ssa.Return
+	for _, rt := range allRets {
+		if definiteKind(RetVal(rt, idx)) != class {
+			passRets = append(passRets, rt)
+		}
+	}
+	// in HandleHandshake: the branch on result idx
+	var res ssa.Value = hc
+	if nres > 1 {
+		res = extractOf(hc, idx)
+	}
+	var hif *ssa.If
+	hRej := 0
+	for _, b := range hh.Blocks {
+		i, ok := b.Instrs[len(b.Instrs)-1].(*ssa.If)
+		if !ok || res == nil {
+			continue
+		}
+		c, pol := normCond(i.Cond, true)
+		if x, tmn, ok := NilTest(c); ok && stripValue(x) == res {
+			// succ 0 taken when cond true; cond true means nil iff tmn==pol
+			nilSucc := 1
+			if tmn == pol {
+				nilSucc = 0
+			}
+			hif = i
+			if class == "nil" {
+				hRej = nilSucc
+			} else {
+				hRej = 1 - nilSucc
+			}
+		} else if stripValue(c) == res {
+			hif = i
+			trueSucc := 1
+			if pol {
+				trueSucc = 0
+			}
+			if class == "true" {
+				hRej = trueSucc
+			} else {
+				hRej = 1 - trueSucc
+			}
+		}
+	}
+	if hif == nil {
+		r.Fail(rule, CallPos(hc), "the result of "+name+" that carries the refusal of "+callee+" does not decide a branch", "HandleHandshake", "gate-rejects:"+callee)
+		return true
+	}
+	hits := WalkFrom(hif.Block().Succs[hRej], nil, func(in ssa.Instruction) int {
+		for _, cc := range credCalls {
+			if in == cc.(ssa.Instruction) && wanted(cc) {
+				return Hit
+			}
+		}
+		return Cont
+	}, nil)
+	r.Ob(rule, CallPos(gate), len(hits) == 0, "no credential function is reachable from the rejecting outcome of "+callee+" (through "+name+")", "HandleHandshake", "gate-rejects:"+callee)
+	// helper called on every path to the credential functions
+	for _, cc := range credCalls {
+		if !wanted(cc) {
+			continue
+		}
+		skipped := WalkFrom(hh.Blocks[0], nil, func(in ssa.Instruction) int {
+			if in == ssa.Instruction(hc) {
+				return Stop
+			}
+			if in == cc.(ssa.Instruction) {
+				return Hit
+			}
+			return Cont
+		}, func(b *ssa.BasicBlock, succ int) bool { return ConsistentEdge(b, succ, cc.Block()) })
+		// and inside the helper the gate is evaluated on every path to a passing return
+		inner := 0
+		for _, pr := range passRets {
+			sk := WalkFrom(h.Blocks[0], nil, func(in ssa.Instruction) int {
+				if in == gate.(ssa.Instruction) {
+					return Stop
+				}
+				if in == ssa.Instruction(pr) {
+					return Hit
+				}
+				return Cont
+			}, func(b *ssa.BasicBlock, succ int) bool {
+				if comp == "" {
+					return true
+				}
+				last, ok := b.Instrs[len(b.Instrs)-1].(*ssa.If)
+				if !ok {
+					return true
+				}
+				c, pol := normCond(last.Cond, true)
+				if x, tmn, ok := NilTest(c); ok {
+					if _, fld, _, ok := FieldOf(x); ok && fld == comp {
+						nilSucc := 0
+						if tmn != pol {
+							nilSucc = 1
+						}
+						return succ != nilSucc
+					}
+				}
+				return true
+			})
+			inner += len(sk)
+		}
+		r.Ob(rule, CallPos(cc), len(skipped) == 0 && inner == 0 && len(passRets) > 0, callee+" is evaluated on every path to "+CalleeOf(cc).Name+" (through "+name+"; component-absent paths excepted)", "HandleHandshake", "gate-before:"+callee+"->"+CalleeOf(cc).Name)
+	}
+	if comp != "" {
+		o := originSummary(Arg(gate, 0))
+		good := false
+		for i, hp := range h.Params {
+			if o == "param:"+hp.Name() && i < len(hc.Call.Args) {
+				oo := originSummary(hc.Call.Args[i])
+				good = !strings.Contains(oo, "param:req") && strings.Contains(oo, "extractIP")
+				o = oo
+			}
+		}
+		r.Ob(rule, CallPos(gate), good, "address given to "+callee+" (through "+name+"): "+o+" (want extractIP(conn.GetRemoteAddr()), never a request field)", "HandleHandshake", "gate-address:"+callee)
+	}
+	return true
 }
